@@ -19,18 +19,24 @@ class Crash(Exception):
     pass
 
 
+class CrashBase(BaseException):
+    """an abort that is not an `Exception` (KeyboardInterrupt, SystemExit, a test-runner timeout)"""
+    pass
+
+
 class Recorder:
-    def __init__(self, ix, crash_at=None):
+    def __init__(self, ix, crash_at=None, crash_cls=None):
         self.ix = ix
         self.snaps = []   # (boundary, state dict)
         self.crash_at = crash_at  # index of the observer call at which to raise
+        self.crash_cls = crash_cls or Crash
         self.n = 0
 
     def __call__(self, project, phase):
         self.snaps.append((phase, snapshot(project, self.ix)))
         self.n += 1
         if self.crash_at is not None and self.n - 1 == self.crash_at:
-            raise Crash("injected at observer call %d (%s)" % (self.crash_at, phase))
+            raise self.crash_cls("injected at observer call %d (%s)" % (self.crash_at, phase))
 
 
 def real_simulate(project, params, recorder=None, backward=False, **kw):
@@ -56,10 +62,20 @@ def run_real(spec, params, hashes=None, chashes=None):
     exc = None
     wu = params.get("warmup")
     if wu:   # a used object: an earlier (unobserved) run with other parameters
+        saved = None
+        if wu.get("edit_absence"):
+            # the earlier run sees other per-resource calendars; the spec's ones are put back (as new list
+            # objects, the way a user would assign them) before the observed run
+            saved = [(r, r.absence_time_list) for r in ix.workers + ix.facs]
+            for r, lst in saved:
+                r.absence_time_list = [x + 1 for x in lst] if lst else [0, 2]
         try:
             real_simulate(project, wu, None, backward=bool(wu.get("backward")))
         except Exception as e:
             exc = e
+        if saved is not None:
+            for r, lst in saved:
+                r.absence_time_list = list(lst)
     pre = snapshot(project, ix)
     rec = Recorder(ix)
     try:
